@@ -50,6 +50,25 @@ def oracle(ctx, case, steps, ctor_err):
                 ctx.fail(suites.slim(case), f'shared atom {n} is missing from coarse node {k}')
 
 
+def hier_oracle(ctx, case, steps, ctor_err):
+    """sharing between COARSE fragments (beads shared by two groups at an intermediate level): the multi-level
+    description must still end in the generator's molecule"""
+    if case.get('kind') != 'hier' or not case.get('nshared_upper'):
+        return
+    if steps is None:
+        ctx.fail(suites.slim(case), f'multi-level description with shared beads rejected while reading: {ctor_err[1]}')
+        return
+    last = steps[-1]
+    if last['result'] != 'ok':
+        ctx.fail(suites.slim(case), f'multi-level description with shared beads rejected at level {last["level"]}: {last["result"]}')
+        return
+    fine = last['fine_graph']
+    ref = gen_mol.ref_from_case(case)
+    if fine.number_of_nodes() != ref.number_of_nodes() or not nx.is_isomorphic(fine, ref, node_match=nm, edge_match=em_ref):
+        ctx.fail(suites.slim(case), f'beads shared between coarse fragments: the description resolves to {fine.number_of_nodes()} atoms / '
+                                    f'{fine.number_of_edges()} bonds, the molecule has {ref.number_of_nodes()} / {ref.number_of_edges()}')
+
+
 def classify(case):
     """Q2: a shared pair whose atom is aromatic (the hydrogen count of the kept copy ignores the bonds it inherits)"""
     if any(k.startswith('aromatic') for k in case.get('shared_kinds', [])):
@@ -66,6 +85,12 @@ def run(ctx):
             case = gen_mol.star_share_case(rng)
         elif i % 5 == 3:
             case = gen_mol.clique_share_case(rng)
+        elif i % 5 == 2:
+            import gen_levels
+            case = gen_levels.hier_case(rng, share_p=0.6)
+            suites.run_resolve_case(ctx, 'hier-share', case, oracle=hier_oracle)
+            ctx.feature('shared-beads=%d' % min(case['nshared_upper'], 3))
+            continue
         else:
             case = gen_mol.cut_case(rng, nmax=10, share_p=rng.choice([0.3, 0.6, 1.0]), aromatic_p=0.0 if i % 4 else 0.4)
         suites.run_resolve_case(ctx, 'mol-share', case, oracle=oracle)
